@@ -167,9 +167,33 @@ def header_build(variant="plain"):
     return b
 
 
+def write_if_changed(path, text):
+    if not os.path.exists(path) or open(path).read() != text:
+        os.makedirs(os.path.dirname(path), exist_ok=True)
+        tmp = path + ".tmp%d" % os.getpid()
+        open(tmp, "w").write(text)
+        os.replace(tmp, path)
+        return True
+    return False
+
+
+def regen_kinds():
+    """translate/kinds.py: enum kind_t -> harness include + lean/UtapModel/Gen/Kinds.lean (every run)."""
+    sys.path.insert(0, os.path.join(VERIF, "translate"))
+    import kinds as K
+    ks = K.kinds(REPO)
+    d = os.path.join(CACHE, "geninc")
+    write_if_changed(os.path.join(d, "kinds.inc"), K.inc_text(ks))
+    write_if_changed(os.path.join(LEAN_DIR, "UtapModel", "Gen", "Kinds.lean"), K.lean_text(ks))
+    return d, ks
+
+
 def build_harness(b, name, sources, extra_flags=()):
     """Compile harness/<sources> against build b; cached by content hash."""
     h = hashlib.sha256()
+    incdir, _ = regen_kinds()
+    extra_flags = list(extra_flags) + ["-I" + incdir]
+    h.update(open(os.path.join(incdir, "kinds.inc"), "rb").read())
     paths = [os.path.join(VERIF, "harness", s) for s in sources]
     hdrs = [os.path.join(VERIF, "harness", f) for f in sorted(os.listdir(os.path.join(VERIF, "harness")))
             if f.endswith((".h", ".hpp"))]
@@ -355,9 +379,15 @@ def leanchecker(module):
 
 def load_known():
     p = os.path.join(VERIF, "KNOWN_FINDINGS.json")
-    if not os.path.exists(p):
-        return []
-    return json.load(open(p))["findings"]
+    out = []
+    if os.path.exists(p):
+        out += json.load(open(p))["findings"]
+    d = os.path.join(VERIF, "known_findings.d")
+    if os.path.isdir(d):
+        for f in sorted(os.listdir(d)):
+            if f.endswith(".json"):
+                out += json.load(open(os.path.join(d, f)))["findings"]
+    return out
 
 
 class Ctx:
